@@ -594,6 +594,8 @@ class loop_if(x12_node):
         @rtype: boolean
         """
         pos_keys = sorted(self.pos_map)
+        if len(pos_keys) == 0:
+            return False  # a loop without children (the empty DETAIL of a 997) matches nothing
         child = self.pos_map[pos_keys[0]][0]
         if child.is_loop():
             return child.is_match(seg_data)
